@@ -204,6 +204,22 @@ def run(R, tier):
             R.check(ok, "R15.6", "writer:%s<-%s" % (fld, body.npath.split("::")[-1] if not body.impl_self else body.impl_self.split("::")[-1].split("<")[0] + "::" + (body.name or "")), "allowed writer", "%s writes (%s) the `%s` field: only %s may - any other store bypasses the transition latch / the command semantics" % (body.npath, kind, fld, sorted(allowed[fld])), where=line)
     R.floor("R15.6", "field writes", n_w, 5)
 
+    # ---- R15.7 the STATus tree the macros declare (sa/rules/treedecl.py) ------------------------------------------------------------
+    # SCPI-99 vol.2 20.1-20.3: STATus:OPERation and :QUEStionable each with [:EVENt]? (the default node), :CONDition?,
+    # :ENABle, :NTRansition, :PTRansition - every handler instantiated for its own register set - and STATus:PRESet.
+    from . import treedecl as TD
+    try:
+        tree, tb = TD.witness_tree()
+    except facts.AnchorLost as e:
+        R.anchor_lost("R15.7", str(e))
+        tree = None
+    if tree is not None:
+        R.configs.append("witness")
+        TD.check_subtree(R, "R15.7", tree, [b"STATus"], [(b"OPERation", "Branch", False, None, None), (b"QUEStionable", "Branch", False, None, None), (b"PRESet", "Leaf", False, "StatPresetCommand", None)], where=tb.span)
+        for reg, ga in ((b"OPERation", "Operation"), (b"QUEStionable", "Questionable")):
+            TD.check_subtree(R, "R15.7", tree, [b"STATus", reg], [(b"EVENt", "Leaf", True, "EventCommand", ga), (b"CONDition", "Leaf", False, "ConditionCommand", ga), (b"ENABle", "Leaf", False, "EnableCommand", ga),
+                                                                    (b"NTRansition", "Leaf", False, "NTransitionCommand", ga), (b"PTRansition", "Leaf", False, "PTransitionCommand", ga)], where=tb.span)
+
 
 def _reg_after(DM, uc, r, cell):
     """values of a register that was passed by reference: the cell travels in the state as argument 1 of the frame;
